@@ -50,6 +50,14 @@ def run(ctx):
     for k in sorted(key_to_api):
         for dk in (-1, 1):
             cases.append((True, "", k + dk, 0, "request"))
+    # unknown keys looked up with a version EQUAL to the key (and neighbours): which of the two documented errors is raised
+    # must not depend on such a coincidence
+    for k in list(range(-4, 0)) + [x for x in range(0, 130) if x not in key_to_api] + [1000, 32767]:
+        for ver in (k, k + 1, k - 1):
+            cases.append((True, "", k, ver, r.choice(["request", "response"])))
+    for k in sorted(key_to_api):
+        cases.append((True, "", k, k, "request"))
+        cases.append((True, "", k, k + 100, "response"))
     n_random = 2000 if ctx["tier"] == "quick" else 20000
     for _ in range(n_random):
         c = r.random()
